@@ -440,8 +440,8 @@ def fix_reimported_names(source: str) -> str:
         if node.module in constants.PYTHON_311_STDLIB:
             continue
 
-        if node.module is None:
-            continue
+        if node.module is None or node.level:
+            continue  # A relative import names its module relative to a package this file does not show
 
         origin = _trace_module_source_file(node.module)
         if origin in {"frozen", "built-in", None}:
@@ -470,7 +470,12 @@ def fix_reimported_names(source: str) -> str:
 
             if trace_result := trace_origin(name, module_source, __all__=True):
                 *_, module_import_node = trace_result
-                if isinstance(module_import_node, ast.ImportFrom):
+                if isinstance(module_import_node, ast.ImportFrom) and (
+                    module_import_node.level or module_import_node.module is None
+                ):
+                    # "from .sibling import x" in the module: the same words mean another module here
+                    node_names.append(alias)
+                elif isinstance(module_import_node, ast.ImportFrom):
                     # Remove this alias from node.names
                     # Add this alias to things that should be imported from module_import_node.module
                     if (
